@@ -57,6 +57,8 @@ def case_st(draw):
         "driver": driver, "n": n, "segments": segs, "entry": [draw(st.sampled_from(eps)) for _ in segs],
         "intervals": ivals, "seed": draw(st.integers(0, 2 ** 32)), "logging_interval": draw(st.sampled_from([1, 1, 2, 3])),
         "pos": [[draw(fl(0.5, 4.5)) for _ in range(3)] for _ in range(3)],
+        # the log stream may already hold text of the user's (a title, an earlier run) when the simulation gets it
+        "log_prefix": draw(st.sampled_from(["", "", "# production run 7\n", "Class  Step  leftover of an earlier log\n  old row\n"])),
         "logfile": draw(st.sampled_from([True, True, False])), "trajectory": draw(st.sampled_from([True, True, False])),
         # create the generators of consecutive irun segments first and exhaust them afterwards
         "deferred_irun": draw(st.sampled_from([False, False, True])),
@@ -75,6 +77,7 @@ def build(case):
     atoms = Atoms("Ar3", positions=case["pos"], cell=[5, 5, 5], pbc=True)
     atoms.calc = ModelCalc("pair", {"k": 0.05, "center": (2.5, 2.5, 2.5), "a": 0.4, "s": 1.6})
     log, traj = io.StringIO(), io.StringIO()
+    log.write(case.get("log_prefix", ""))
     kw = {"seed": case["seed"], "logging_interval": case["logging_interval"]}
     if case.get("logfile", True):
         kw["logfile"] = log
@@ -203,6 +206,12 @@ def run_case(case):
         if r.calls != exp:
             return viol("observer-schedule" + (":leading-zero" if lead0 else ""), f"observer with interval {iv} was called at steps {r.calls}, model says {exp}")
     text = log.getvalue()
+    prefix = case.get("log_prefix", "")
+    if prefix:
+        labels.append("log-stream-not-empty")
+        if not text.startswith(prefix):
+            return viol("log-earlier-text-lost", f"the text the log stream held before the run ({prefix!r}) was overwritten")
+        text = text[len(prefix):]
     if not case.get("logfile", True):
         labels.append("no-logfile")
     lines = text.splitlines() if case.get("logfile", True) else None
@@ -222,7 +231,7 @@ def run_case(case):
         return viol("split-step-count", f"step_count {mc.step_count} vs {ref.step_count} for the unsplit run")
     if atoms.positions.tobytes() != ratoms.positions.tobytes() or atoms.numbers.tobytes() != ratoms.numbers.tobytes() or atoms.cell.array.tobytes() != ratoms.cell.array.tobytes():
         return viol("split-trajectory", "final atoms differ from those of the unsplit run(n)")
-    if text != rlog.getvalue():
+    if text != rlog.getvalue()[len(prefix):]:
         return viol("split-log", "log text differs from the unsplit run(n)")
     if traj.getvalue() != rtraj.getvalue():
         return viol("split-trajectory-file", "trajectory text differs from the unsplit run(n)")
